@@ -98,16 +98,16 @@ impl<S: SelfEmulation> Accumulator<S> {
                     CommitmentLabel::Fixed(i) => {
                         let name = fixed_commitment_name(prefix, *i);
                         assert_eq!(fixed_bases.get(&name), Some(base));
-                        fixed_base_scalars.insert(name, *scalar);
+                        *fixed_base_scalars.entry(name).or_insert(S::F::ZERO) += *scalar;
                     }
                     CommitmentLabel::Permutation(i) => {
                         let name = perm_commitment_name(prefix, *i);
                         assert_eq!(fixed_bases.get(&name), Some(base));
-                        fixed_base_scalars.insert(name, *scalar);
+                        *fixed_base_scalars.entry(name).or_insert(S::F::ZERO) += *scalar;
                     }
                     CommitmentLabel::Custom(s) if s == "-G" => {
                         assert_eq!(fixed_bases.get(s), Some(base));
-                        fixed_base_scalars.insert("-G".into(), *scalar);
+                        *fixed_base_scalars.entry("-G".into()).or_insert(S::F::ZERO) += *scalar;
                     }
                     _ => {
                         bases.push(*base);
